@@ -94,7 +94,10 @@ func genWrites(r *Repo) (string, error) {
 								}
 							}
 							if se.Sel.Name == "Add" && strings.HasSuffix(r.Text(se.X), ".writable") && len(x.Args) > 0 {
-								adds = append(adds, class(x.Args[0]))
+								// what is added to the cache is recorded by origin also inside the copy-on-write search (there: the
+								// clone made by it), and a helper's parameter contributes the origins of its call sites one by one:
+								// where the Add sits (inline, or in a helper every site calls) is no fact
+								adds = append(adds, strings.Split(oc.classOf(fd, x.Args[0], 0), "+")...)
 							}
 						}
 					}
